@@ -2,6 +2,7 @@
 import os, re
 from vf.common import Harness, REPO
 from vf.props import c12
+from vf import stage_src
 
 LEVEL = "model_checking"
 TECHNIQUE = "CBMC bounded symbolic execution of parser components cut mechanically out of the generated parsers / lexer sources: bison fold actions with arbitrary semantic values (no undefined behaviour, every failure reported once), re_lexer escape handling on an arbitrary character stream"
@@ -55,4 +56,19 @@ def harnesses(ctx, tier):
                       desc="re_lexer.l read_escaped_char/escaped_char_value on an arbitrary <=3-character stream",
                       bounds="all character streams of length 0..3 after the backslash, strict and lenient mode",
                       functions=["read_escaped_char", "escaped_char_value"], stubs=["RE_YY_INPUT -> symbolic stream", "sscanf(%x) contract stub"]))
+    for variant in ("c", "regen"):
+        def gen_lv(ctx_, outdir, variant=variant):
+            src = stage_src.regenerate(outdir, "grammar") if variant == "regen" else os.path.join(REPO, "libyara", "grammar.c")
+            stage_src.write_actions_header(os.path.join(outdir, "actions.h"), src,
+                                           {"ACT_for_variables_first": 'for_variables: "identifier"',
+                                            "ACT_for_variables_next": 'for_variables: for_variables \',\' "identifier"',
+                                            "ACT_for_iteration_of": 'for_iteration: "<of>" string_iterator'})
+            t = open(os.path.join(REPO, "libyara", "compiler.c"), errors="replace").read()
+            with open(os.path.join(outdir, "vf_get_var_frame.h"), "w") as f:
+                f.write("/* cut from libyara/compiler.c by vf/props/c07.py */\n" + extract_c_function(t, "_yr_compiler_get_var_frame") + "\n")
+        hs.append(Harness(name="H3_loop_variables_" + variant, src="c07/loopvars.c", gen=gen_lv, unwind=6, timeout=600,
+                          desc="loop-variable ownership over two consecutive loops at one depth (named-variable loop, then string-set loop): no use of freed names, no double free, no leak (%s)" % variant,
+                          bounds="1..2 named variables, one-character names over 4 letters, any identifier looked up",
+                          functions=["bison actions for_variables (x2), for_iteration: _OF_ string_iterator (extracted)", "loop_vars_cleanup (grammar prologue)", "yr_parser_lookup_loop_variable", "_yr_compiler_get_var_frame"],
+                          stubs=["yyerror", "yr_compiler_set_error_extra_info"]))
     return hs
